@@ -21,8 +21,8 @@ RANKS = [2, -1, -1, 2, 2, -1, 2]
 
 
 class MDUniverse(Universe):
-    def __init__(self):
-        super().__init__(1, NAMES, CONSTS)
+    def __init__(self, ng: int = 1):
+        super().__init__(ng, NAMES, CONSTS)
         self.model = ir.Model(self.graphs[0], ir_version=11)
         self.model.graph.opset_imports[""] = 21
         self.cfgs: list = []          # every configuration object ever created
@@ -37,6 +37,21 @@ class MDUniverse(Universe):
             r = RANKS[i] if i < len(RANKS) else -1
             if r >= 0:
                 self.values[i].shape = ir.Shape([3] * r)
+
+    def attach_nested(self) -> None:
+        """Nested configuration: graph 2 is the body of the first node of graph 1 (its nodes capture values of graph 1)."""
+        if len(self.graphs) > 1 and self.nodes and "body" not in self.nodes[0].attributes:
+            self.nodes[0].attributes["body"] = ir.AttrGraph("body", self.graphs[1])
+
+    def model_nodes(self, model=None):
+        """Nodes of the model in serialization order: the main graph, then the body attached to its first node."""
+        g = (model or self.model).graph
+        out = list(g)
+        for n in g:
+            a = n.attributes.get("body")
+            if a is not None and a.type == ir.AttributeType.GRAPH:
+                out.extend(a.value)
+        return out
 
     def cid(self, c) -> int:
         for i, x in enumerate(self.cfgs):
@@ -85,7 +100,12 @@ class MDUniverse(Universe):
     @staticmethod
     def ser_by_names(model) -> list:
         out = []
-        for node in model.graph:
+        nodes = list(model.graph)
+        for n in model.graph:
+            a = n.attributes.get("body")
+            if a is not None and a.type == ir.AttributeType.GRAPH:
+                nodes.extend(a.value)
+        for node in nodes:
             ent = []
             for dc in node.device_configurations:
                 ent.append({
@@ -100,7 +120,12 @@ class MDUniverse(Universe):
     @staticmethod
     def ser_of_proto(proto) -> list:
         out = []
-        for node in proto.graph.node:
+        nodes = list(proto.graph.node)
+        for n in proto.graph.node:
+            for a in n.attribute:
+                if a.name == "body":
+                    nodes.extend(a.g.node)
+        for node in nodes:
             ent = []
             for dc in node.device_configurations:
                 ent.append({
@@ -117,7 +142,7 @@ class MDUniverse(Universe):
         g = self.model.graph
         for v in list(g.inputs) + list(g.initializers.values()):
             names.append(v.name)
-        for n in g:
+        for n in self.model_nodes():
             for o in n.outputs:
                 names.append(o.name)
         return all(names) and len(set(names)) == len(names)
@@ -148,10 +173,11 @@ class MDReplayer:
         self.findings.append(dict(cls=cls, signature=sig, history=rec["h"], call=row.get("c"), expected_out=row.get("out"), **kw))
 
     @staticmethod
-    def build(h):
-        u = MDUniverse()
+    def build(h, ng: int = 1):
+        u = MDUniverse(ng)
         for cc, _ in h:
             u.apply(call_from_compact(cc))
+        u.attach_nested()
         return u
 
     def state_checks(self, u, ser_expected, rec, row, tag):
@@ -207,16 +233,17 @@ class MDReplayer:
     def replay(self, rec):
         h = rec["h"]
         pre = obs_of_ms(rec["pre"])
-        u = self.build(h)
+        ng = len(rec["pre"]["s"]["gNodes"])
+        u = self.build(h, ng)
         self.stats["states"] += 1
         if u.project_m() != pre:
             self.stats["pre_mismatch"] += 1
             return
-        self.state_checks(u, rec["ser"], rec, {}, "state")
+        self.state_checks(u, list(rec["ser"]) + list(rec.get("ser2", [])), rec, {}, "state" if ng == 1 else "nested-state")
         dirty = False
         for row in rec["rows"]:
             if dirty:
-                u = self.build(h)
+                u = self.build(h, ng)
                 dirty = False
                 try:   # serialization is an observation that may happen between any two steps: nothing it
                     ir.to_proto(u.model)   # leaves behind (memoized protos, ...) may show in a later one
@@ -246,9 +273,9 @@ class MDReplayer:
                         gotser = u.ser_of_proto(ir.to_proto(u.model))
                     except Exception:  # noqa: BLE001 - judged (as a divergence) when the post state is visited
                         gotser = None
-                    if gotser is not None and gotser != norm_ser(row["ser"]):
+                    if gotser is not None and gotser != norm_ser(list(row["ser"]) + list(row.get("ser2", []))):
                         self.finding("C19", f"C19:{c['op']}:ok:serialized-references-after-edit", rec, row, got=gotser,
-                                     want=norm_ser(row["ser"]),
+                                     want=norm_ser(list(row["ser"]) + list(row.get("ser2", []))),
                                      message=f"serializing again after {c['op']} (the model had been serialized before the "
                                              "call) does not use the current names / annotations")
                 continue
@@ -273,7 +300,7 @@ class MDReplayer:
     def dangling(u) -> list:
         bad = []
         reg = {id(c) for c in u.model.device_configurations}
-        for node in u.model.graph:
+        for node in u.model_nodes():
             io = {id(v) for v in list(node.inputs) + list(node.outputs) if v is not None}
             for dc in node.device_configurations:
                 if id(dc.configuration) not in reg:
